@@ -94,6 +94,18 @@ impl Engine for C16 {
             container.gz = None;
         }
         let threads = *rng.pick(&[0usize, 1, 1, 2, 3, 8, 16]);
+        // cov may count on another (equally degenerate) file
+        let mut extra = vec![];
+        if sub == "cov" && rng.chance(1, 2) {
+            let alt = degenerate_records(rng, &marks, true, thorough);
+            let c = gen_container(rng, &alt, false, true);
+            extra.push(SubRun {
+                records: alt,
+                container: c,
+                sched: Sched::fifo(),
+                params: params! {},
+            });
+        }
         let sched = Sched::draw(rng, 8 * records.len() as u64 + 16);
         Case {
             prop: "C16".into(),
@@ -122,7 +134,7 @@ impl Engine for C16 {
                 "stdin" => stdin,
                 "auto_threads" => rng.usize(1, 8),
             },
-            extra: vec![],
+            extra,
         }
     }
 
@@ -176,6 +188,11 @@ impl Engine for C16 {
                 ]);
                 if case.p_bool("counts") {
                     argv.push(s("--counts"));
+                }
+                if let Some(e) = case.extra.first() {
+                    let alt = write_input(&dir, "alt", &e.records, &e.container);
+                    argv.extend([s("--alt-input"), alt]);
+                    out.probe("cov_alt_input", 1);
                 }
             }
             "ctr" => {
